@@ -362,6 +362,21 @@ def gen_ops(text, fmt, op, cap):
             for li, ti, new in thin(cand, cap):
                 a, b_ = f.lines[li].spans[ti]
                 yield "s%d" % s, (li, ti), join(L[:li] + [L[li][:a] + new + L[li][b_:]] + L[li + 1:])
+        # key tokens: other spellings of the SAME integer (+k, 00k); non-integer spellings (k.0, ke0) are not generated:
+        # the reader model only knows integer keys
+        ktoks = []
+        for bi, b in readb:
+            shape = M.READ[fmt][b.name][0]
+            for li in b.data:
+                e = M.entry(f.lines[li], shape)
+                if e:
+                    ktoks += [(li, ti) for ti in range(e[2])]
+        for var, fn in (("kplus", lambda t: "+" + t if t[0] not in "+-" else None),
+                        ("kzero", lambda t: (t[0] + "00" + t[1:]) if t[0] in "+-" else "00" + t)):
+            cand = [(li, ti, fn(f.lines[li].toks[ti])) for li, ti in ktoks if fn(f.lines[li].toks[ti])]
+            for li, ti, new in thin(cand, cap):
+                a, b_ = f.lines[li].spans[ti]
+                yield var, (li, ti), join(L[:li] + [L[li][:a] + new + L[li][b_:]] + L[li + 1:])
     elif op == "R8":
         asg = M.assignments(None, fmt, f)
         mk = lambda key, v: "  %s   %s   # earlier duplicate" % (" ".join("%d" % k for k in key), v)
@@ -913,6 +928,127 @@ def key_tables(ctx, stats, fails):
     stats["keys_perturbed"] = ntested
 
 
+# ----------------------------------------------------------------------------- key aliasing
+def alias_tokens(k):
+    """key tokens that denote a DIFFERENT integer (or no integer at all) which a sloppy conversion could map onto k:
+    (strict, lenient); strict ones must be rejected or behave as an unknown key; the lenient ones are non-integer
+    spellings of the same number (the reader model knows integer keys only): they may in addition behave like k"""
+    strict = [("k+2^32", "%d" % (k + 2 ** 32)), ("k+2^31", "%d" % (k + 2 ** 31)), ("k-2^32", "%d" % (k - 2 ** 32)),
+              ("k-2^31", "%d" % (k - 2 ** 31)), ("k+2^63", "%d" % (k + 2 ** 63)), ("k+2^64", "%d" % (k + 2 ** 64)),
+              ("k+2^16", "%d" % (k + 65536)), ("k+256", "%d" % (k + 256)), ("k+NUL", "%d\0" % k), ("k+NULdigit", "%d\0%d" % (k, 1))]
+    if k > 0:
+        strict.append(("-k", "%d" % -k))
+    lenient = [("k.0", "%d.0" % k), ("k.", "%d." % k), ("ke0", "%de0" % k)]
+    return strict, lenient
+
+
+def _obs_has_number(ofmt, obs):
+    if ofmt in (0, 1):
+        return bool(obs.strip())
+    return any(r[0] in ("GM2CALCOUTPUT", "LOWEN", "SPHENOLOWENERGY") for r in obs)
+
+
+def aliases(ctx, pool, stats):
+    """for every documented (block, key) - both indices of matrix entries - an extra line whose key token is an alias
+    (see alias_tokens) with ANOTHER value is put before the genuine line, after it, and in its place.  The line must be
+    rejected (exit 1, diagnostic, no number, reader throws) or be ignored like an unknown key (program result and reader
+    dump identical to the file without the line); it must never set the documented parameter.  Same for a copy of each
+    scale-dependent block at Q + 2^32, Q + 2^31, Q + 2^64, -Q."""
+    bases = [("slha", "input/example.slha", None), ("gm2calc", "input/example.gm2", None), ("thdm", "input/example.thdm", None),
+             ("thdm", "test/test_points/thdm_gauge-basis.in", "MINPAR")]
+    tasks, meta = [], []
+    for fmt, rel, only in bases:
+        text = _nl(open(os.path.join(REPO, rel)).read())
+        f = M.parse(text)
+        L = text.split("\n")[:-1]
+        cont = M.content(text, fmt)
+        ofmt = out_format(fmt, cont)
+        eff = {}
+        for a in M.assignments(None, fmt, f):
+            eff[(a[2], a[3])] = a
+        texts, tm = [text], [("ref", None, None, None, None)]
+        refidx = {None: 0}
+        for (blk, key), (bi, li, _, _, val, ti) in sorted(eff.items()):
+            if not ((fmt, blk, key) in M.DOC or (fmt, blk, key) in M.DOC_EX) or (only and blk != only):
+                continue
+            if ctx.quick and len(key) == 2 and fmt == "thdm" and key not in ((1, 1), (2, 3), (3, 3)):
+                continue
+            ov = other_value(fmt, blk, key, val)
+            mkline = lambda kt: "  %s   %s   # alias of %s" % (" ".join(kt), ov, ",".join(map(str, key)))
+            dele = "\n".join(L[:li] + L[li + 1:]) + "\n"
+            refidx[li] = len(texts)
+            texts.append(dele)
+            tm.append(("ref", None, None, None, None))
+            place = lambda ln, how: ("\n".join(L[:li] + [ln] + L[li:]) if how == "before" else
+                                     "\n".join(L[:li + 1] + [ln] + L[li + 1:]) if how == "after" else
+                                     "\n".join(L[:li] + [ln] + L[li + 1:])) + "\n"
+            for pos in range(len(key)):
+                strict, lenient = alias_tokens(key[pos])
+                for cls, tok in strict + lenient:
+                    try:
+                        other = tuple(int(tok) if i == pos else key[i] for i in range(len(key)))
+                        if M.known_key(fmt, blk, other):
+                            continue              # that integer is a key of its own
+                    except ValueError:
+                        pass
+                    kt = ["%d" % key[i] if i != pos else tok for i in range(len(key))]
+                    for how in ("before", "after", "alone"):
+                        same = None
+                        if (cls, tok) in lenient:       # what the file means if the token is taken as k
+                            same = len(texts)
+                            texts.append(place(mkline(["%d" % x for x in key]), how))
+                            tm.append(("ref", None, None, None, None))
+                        texts.append(place(mkline(kt), how))
+                        tm.append(("case", "%s[%s]" % (blk, ",".join(map(str, key))), "%s%s" % (cls, "" if len(key) == 1 else "@index%d" % (pos + 1)),
+                                   how, (refidx[li] if how == "alone" else 0, same)))
+        if fmt == "slha":
+            ql = M.last_hmix_scale(f)
+            for b in f.blocks:
+                if not M.block_is_read(f, fmt, b, ql) or not M.READ[fmt][b.name][1]:
+                    continue
+                shape = M.READ[fmt][b.name][0]
+                for cls, q2 in (("Q+2^32", ql + 2.0 ** 32), ("Q+2^31", ql + 2.0 ** 31), ("Q+2^64", ql + 2.0 ** 64), ("-Q", -ql)):
+                    blkl = ["Block %s Q= %s   # scale alias" % (b.name, repr(q2))]
+                    for li in b.data:
+                        e = M.entry(f.lines[li], shape)
+                        if e:
+                            blkl.append("  %s   %s" % (" ".join("%d" % k for k in e[0]), repr(float(e[1]) * 1.5 + 7.0)))
+                    for how, p in (("before", b.hdr),) + ((("after", min(b.end, len(L))),) if b.name != "HMIX" else ()):
+                        texts.append("\n".join(L[:p] + blkl + L[p:]) + "\n")
+                        tm.append(("case", "%s:Q" % b.name, cls, how, (0, None)))
+        base_i = len(meta)
+        for i in range(0, len(texts), 40):
+            tasks.append((fmt, ofmt, texts[i:i + 40]))
+        meta += [(fmt, rel, ofmt, base_i) + m + (t,) for m, t in zip(tm, texts)]
+    flat = []
+    for r in pool.imap(_w_eval, tasks, chunksize=1):
+        flat += r
+    ncase = 0
+    outcome = {}
+    for (fmt, rel, ofmt, base_i, kind, what, cls, how, refs, txt), r in zip(meta, flat):
+        if kind != "case":
+            continue
+        ncase += 1
+        ctx.evals(1)
+        ref = flat[base_i + refs[0]]
+        ignored = (r[0], r[1], r[3]) == (ref[0], ref[1], ref[3])
+        rejected = r[0] == 1 and r[2] and not _obs_has_number(ofmt, r[1]) and "EXC" in parse_dump(r[3])
+        same = refs[1] is not None and (r[0], r[1], r[3]) == (flat[base_i + refs[1]][0], flat[base_i + refs[1]][1], flat[base_i + refs[1]][3])
+        oc = "ignored" if ignored else "rejected" if rejected else "as-k" if same else "OTHER"
+        outcome[(cls.split("@")[0], oc)] = outcome.get((cls.split("@")[0], oc), 0) + 1
+        ctx.nontrivial(("alias", fmt, what.split("[")[0], cls, how, oc))
+        if oc == "OTHER":
+            det = ("exit %r stdout %s (without the line: exit %r stdout %s)" % (r[0], _short(r[1]), ref[0], _short(ref[1]))
+                   if (r[0], r[1]) != (ref[0], ref[1]) else "reader: " + _dump_diff(ref[3], r[3]))
+            ctx.fail("alias:%s:%s:%s" % (fmt, what.split("[")[0], cls),
+                     "%s input (%s): an extra line with key token %s (%s of %s) %s the genuine line is neither rejected nor ignored: %s"
+                     % (fmt, rel, cls, "alias" , what, {"before": "before", "after": "after", "alone": "instead of"}[how], det),
+                     {"kind": "alias", "fmt": fmt, "text": txt, "reference": meta[base_i + refs[0]][-1],
+                      "as_k": None if refs[1] is None else meta[base_i + refs[1]][-1]})
+    stats["alias_cases"] = ncase
+    stats["alias_outcomes"] = {"%s:%s" % k: v for k, v in sorted(outcome.items())}
+
+
 # ----------------------------------------------------------------------------- deletions / defaults
 def default_dump(fmt):
     p = subprocess.run([_W["mirror"]], input=b"D %s 0\n" % fmt.encode(), stdout=subprocess.PIPE, stderr=subprocess.PIPE)
@@ -1154,6 +1290,7 @@ def run(ctx):
         deletions(ctx, stats, dfails, pool.map)
         for k, what, data in dfails:
             ctx.fail(k, what, data)
+        aliases(ctx, pool, stats)
         scale_family(ctx, pool, stats)
         isolated = isolation(ctx, pool, bases, stats)
         if not isolated:
@@ -1189,7 +1326,7 @@ def run(ctx):
     ctx.note("candidates_dropped_because_model_says_content_changes", stats["dropped_by_model"])
     ctx.note("new_states_per_operator", dict(sorted(stats["per_op"].items())))
     ctx.note("states_merged_same_text", stats["merged"])
-    for k in ("deletion_cases", "blocks_without_documented_default", "keys_without_any_default"):
+    for k in ("deletion_cases", "blocks_without_documented_default", "keys_without_any_default", "alias_cases", "alias_outcomes"):
         ctx.note(k, stats.get(k, 0))
     for k in ("scale_cases", "keys_perturbed", "bad_token_cases", "config_cases", "isolation_sequences",
               "isolation_files_compared", "isolation_rewritten_states"):
@@ -1216,6 +1353,9 @@ def run(ctx):
         "a base read in a process of its own; plus file sequences in ONE process (scale family A,B / A,B,A / multi-scale, the "
         "three formats in all orders, test points alternating, rewritten states between foreign files) with a fresh and with "
         "one re-used GM2_slha_io, each dump compared bitwise with a one-file process; "
+        "key aliasing: for every documented key (both indices of matrix entries) an extra line with key token k+2^32, k+-2^31, "
+        "k-2^32, k+2^63, k+2^64, k+2^16, k+256, -k, k+NUL (must be rejected or ignored) and k.0, k., ke0 (may also act as k) before / "
+        "after / instead of the genuine line, scale-dependent blocks at Q+2^32, Q+2^31, Q+2^64, -Q; R7 also respells keys as +k, 00k; "
         "R14 = scale-dependent block split in two pieces (all key distributions for <=4 keys, else each key isolated "
         "first/last) x the same block at another Q before/between/after the pieces; deletions: every subset of GM2CalcConfig / "
         "VCKMIN entries absent == default (0) written explicitly, MASS[24] absent == SMINPUTS[9], every single and pair of "
@@ -1246,6 +1386,21 @@ def replay(ctx, path):
         if (a[0], a[1]) != (b[0], b[1]) or a[3] != b[3]:
             if a[3] != b[3]:
                 print("replay: reader parameters differ: " + _dump_diff(a[3], b[3]))
+            print("VIOLATION property=C13 replay=%s" % path)
+            return 1
+        print("replay: holds now")
+        return 0
+    if kind == "alias":
+        fmt = d["fmt"]
+        ofmt = out_format(fmt, M.content(d["reference"], fmt))
+        texts = [d["text"], d["reference"]] + ([d["as_k"]] if d.get("as_k") else [])
+        rs = evaluate(fmt, ofmt, texts)
+        r, ref = rs[0], rs[1]
+        ignored = (r[0], r[1], r[3]) == (ref[0], ref[1], ref[3])
+        rejected = r[0] == 1 and r[2] and not _obs_has_number(ofmt, r[1]) and "EXC" in parse_dump(r[3])
+        same = len(rs) > 2 and (r[0], r[1], r[3]) == (rs[2][0], rs[2][1], rs[2][3])
+        print("replay: alias line: exit %r stdout %s; ignored=%s rejected=%s as-k=%s" % (r[0], _short(r[1]), ignored, rejected, same))
+        if not (ignored or rejected or same):
             print("VIOLATION property=C13 replay=%s" % path)
             return 1
         print("replay: holds now")
